@@ -200,4 +200,54 @@ theorem derivedPos_agrees (iv : BS.Builder.Name → Bool) (c : Choices) (ds : Li
   have := posAgree_of_distinct (wtoksL iv c [] 0 ds) (distinct_wtoksL iv c ds [] 0) (wtoksL iv c [] 0 ds) [] rfl
   exact this
 
+/-! ### `ParamsOK` is satisfiable: a concrete inverse of `escAttr`, and ASCII lower-casing -/
+
+/-- `html.unescape` restricted to what the writer's attribute escaping produces -/
+def unescSimple : PStr → PStr
+  | 38 :: 97 :: 109 :: 112 :: 59 :: t => 38 :: unescSimple t
+  | 38 :: 113 :: 117 :: 111 :: 116 :: 59 :: t => 34 :: unescSimple t
+  | c :: t => c :: unescSimple t
+  | [] => []
+
+theorem unescSimple_escAttr (v : PStr) : unescSimple (escAttr v) = v := by
+  induction v with
+  | nil => simp [escAttr, unescSimple]
+  | cons ch t ih =>
+    have hesc : escAttr (ch :: t) = (if ch == 38 then [38, 97, 109, 112, 59] else if ch == 34 then [38, 113, 117, 111, 116, 59] else [ch]) ++ escAttr t := by
+      simp [escAttr]
+    rw [hesc]
+    by_cases h1 : ch = 38
+    · subst h1; simp [unescSimple]; exact ih
+    · by_cases h2 : ch = 34
+      · subst h2; simp [unescSimple]; exact ih
+      · have e1 : (ch == 38) = false := by simpa using h1
+        have e2 : (ch == 34) = false := by simpa using h2
+        simp only [e1, e2, Bool.false_eq_true, if_false, List.singleton_append]
+        rw [unescSimple]
+        · rw [ih]
+        all_goals (intros; first | exact absurd ‹ch = 38› h1 | simp_all)
+
+theorem asciiLower_nameOK (n : PStr) (h : nameOK n = true) : asciiLower n = n := by
+  have hall : ∀ x ∈ n, isUpper x = false := by
+    cases n with
+    | nil => simp [nameOK] at h
+    | cons c t =>
+      simp only [nameOK, Bool.and_eq_true, List.all_eq_true] at h
+      intro x hx
+      simp only [List.mem_cons] at hx
+      rcases hx with rfl | hx
+      · have := h.1; simp [isLowerB] at this; simp [isUpper]; omega
+      · have := h.2 x hx
+        simp [isNameChB, isLowerB, isDigit] at this
+        simp [isUpper]; omega
+  simp only [asciiLower]
+  conv => rhs; rw [← List.map_id n]
+  apply List.map_congr_left
+  intro x hx
+  simp [asciiLowerC, hall x hx]
+
+/-- ASCII lower-casing and `unescSimple` satisfy `ParamsOK` -/
+theorem paramsOK_simple : ParamsOK { unescape := unescSimple, lower := asciiLower } :=
+  ⟨asciiLower_nameOK, fun v _ => unescSimple_escAttr v⟩
+
 end BS.WriterText
